@@ -2,15 +2,15 @@ SPECIFICATION Spec
 CONSTANTS
   Threshold = 1
   MaxRedirect = 65535
-  MaxHeader = 255
+  MaxHeader = 20
   Deviations = {}
   Bug = ""
-  Mode = "lk"
+  Mode = "hdr"
   NC = 2
   MaxBody = 3
   MaxPrefix = 2
-  SkipBytes = {0, 128}
-  Variants = {0}
+  SkipBytes = {0, 1, 128}
+  Variants = {0, 2}
   DimVals = {0, 3}
   MaxW = 2
   MaxH = 1
